@@ -209,9 +209,13 @@ Lemma htlc_export_validates_refuted_lemma :
   exists s, invb false s = true /\ validate false (export s) = false.
 Proof. exists wit_s. split; vm_compute; reflexivity. Qed.
 
-(** ValidateGenesis does not check that a transfer's asset is live nor the supplies against the open
-    transfers; InitGenesis panics on both *)
-Lemma htlc_import_total_refuted_lemma : exists g, validate true g = true /\ import true g = None.
+(** importing the exported genesis of a reachable state does not panic *)
+Lemma htlc_import_total_lemma s : invb true s = true -> import true (export s) <> None.
+Proof. intros Hinv. rewrite (htlc_roundtrip s Hinv). discriminate. Qed.
+
+(** Remark (outside C12): ValidateGenesis does not compare the supplies with the open transfers (nor check that
+    a transfer's asset is live); a hand-made genesis that gets this wrong validates and makes InitGenesis panic *)
+Lemma htlc_handmade_genesis_can_panic_lemma : exists g, validate true g = true /\ import true g = None.
 Proof.
   exists (mkGenesis [wit_asset] [] [mkSupply (0, 5) (0, 0) (0, 0) (0, 0) 0] None).
   split; vm_compute; reflexivity.
